@@ -166,7 +166,7 @@ pub fn fire(child: usize, age: usize) {
 }
 
 /// the common part of every scripted child's poll
-fn poll_child(child: usize, cx: &mut Context<'_>) -> Res {
+pub fn poll_child(child: usize, cx: &mut Context<'_>) -> Res {
     let (step, slot, cls) = CTX.with(|c| {
         let mut c = c.borrow_mut();
         let step = c.scripts[child].pop_front().unwrap_or(Step {
